@@ -470,19 +470,23 @@ class QueryGen:
         keys = uniq
         explicit = rng.random() < 0.75 or not keys
         visible = [True] * len(keys) if not explicit else [rng.random() < 0.7 for _ in keys]
+        # now and then a grouping without any aggregate: one row per group all the same, whether or not the keys are shown
+        bare = bool(explicit and keys and not wide and rng.random() < 0.08)
+        if bare and not any(visible):
+            visible[rng.randrange(len(visible))] = True
         targets = []
         key_pos = {}
         for i, (k, vis) in enumerate(zip(keys, visible)):
             if vis:
                 alias = f'g{i}' if rng.random() < 0.5 else None
                 targets.append(ir.Target(k, alias))
-        aggs = [self.agg_expr() for _ in range(rng.randint(1, 3) if not wide else rng.randint(7, 12))]
+        aggs = [] if bare else [self.agg_expr() for _ in range(rng.randint(1, 3) if not wide else rng.randint(7, 12))]
         for i, a in enumerate(aggs):
             targets.append(ir.Target(a, f'a{i}' if rng.random() < 0.6 else None))
         having = None
         if explicit and keys and rng.random() < 0.4:
             r = rng.random()
-            if r < 0.3:
+            if r < 0.3 and aggs:
                 # the condition is (built from) one of the aggregate targets: the very same expression twice in the statement
                 a = rng.choice(aggs)
                 if a.type == T_BOOL or rng.random() < 0.3:
